@@ -2,6 +2,7 @@
 import json
 import random
 
+import findings
 import tlc
 import workers
 from build import Definition, interp, named, fl, is_rat, is_rational_tree
@@ -162,8 +163,10 @@ def record_results(ctx, results, key_prefix=""):
             key = "%s%s:exception:%s" % (key_prefix, m["name"], exc)
         else:
             key = "%s%s" % (key_prefix, m["what"])
-        ctx.violation(key, "cse=%s step=%s %s name=%s expected=%s observed=%s" %
-                      (cse, m["step"], m["what"], m["name"], m["expected"], m["observed"]),
+        if findings.attributed(s, res["mismatches"]):
+            key = findings.KEY        # the recorded, unrepaired finding F1 (known_findings.json); anything else keeps its own key
+        ctx.violation(key, "%scse=%s step=%s %s name=%s expected=%s observed=%s" %
+                      (key_prefix, cse, m["step"], m["what"], m["name"], m["expected"], m["observed"]),
                       {"scenario": {k: v for k, v in s.items() if not k.startswith("_")}, "cse": cse,
                        "mismatches": res["mismatches"][:10]})
     return {"replays_ok": n_ok, "values_compared": n_val, "steps_replayed": n_steps}
